@@ -606,7 +606,13 @@ class DocumentMapper:
         preceding = [s for s in self.spans if s.end == index]
         if preceding:
             if preceding[-1].run:
-                return preceding[-1].run
+                span = preceding[-1]
+                if any(o.run is span.run and o.start > span.start for o in self.spans):
+                    # The span is one line of a formatted run that goes on after a line break:
+                    # the anchor is the part of the run up to this line's end, not the whole run.
+                    left, _ = self._split_run_at_index(span.run, self._offset_in_run(span) + len(span.text))
+                    return left
+                return span.run
         containing = [s for s in self.spans if s.start < index < s.end]
         if containing:
             span = containing[0]
